@@ -37,6 +37,7 @@ func c02Spaces(c *explore.Ctx) []wordSpace {
 		add("LCS", "BIGC", 0, 2)
 		add("LCM", "BIGC", 0, 2)
 		add("FL2", "BIGC", 0, 2)
+		add("FL3", "BIGC", 0, 2)
 	}
 	// every record its own segment, ids freed by compaction and reused: sequence ids out of id order across a restart
 	s2r1 := wordSpace{Base: "S2", Cfg: "ROLL1", Depth: 3}
@@ -62,6 +63,7 @@ func c02Spaces(c *explore.Ctx) []wordSpace {
 		add("LCM", "BIGC", 0, 3)
 		add("FL", "BIGC", 0, 3)
 		add("FL2", "BIGC", 0, 3)
+		add("FL3", "BIGC", 0, 3)
 	}
 	sp = append(sp, fl)
 	// hash-seed persistence: a database that becomes empty draws a fresh seed at its next Open; the harness
